@@ -716,7 +716,9 @@ impl Gen {
                 }
                 let slot = rng.below(w.slots.len());
                 let len = w.slots[slot].bytes.len().max(1);
-                let op = match rng.below(10) {
+                let op = match rng.below(12) {
+                    10 => ByteOp::AadVariant { mode: 0 },
+                    11 => ByteOp::AadVariant { mode: 1 + rng.below(200) as u8 },
                     0..=3 => ByteOp::FlipBit { pos: rng.below(len), bit: rng.below(8) as u8 },
                     4 => ByteOp::SetByte { pos: rng.below(len), val: rng.below(256) as u8 },
                     5 | 6 => ByteOp::Truncate { len: rng.below(len) },
